@@ -1508,6 +1508,22 @@ impl<'a> Lifter<'a> {
                 let syn::Expr::MethodCall(z) = &*f.expr else { return None };
                 // (c) `for (i, &x) in Y.iter().enumerate() BODY` is `for i in 0..Y.len() { let x = Y[i]; BODY }`
                 if z.method == "enumerate" && z.args.is_empty() {
+                    // not for scatter loops (`a[j] = v[i]` / `a.set(j, ..)` over `(i, &j)`): rule L27 reads them in
+                    // their original form
+                    struct Scatter(bool);
+                    impl<'ast> syn::visit::Visit<'ast> for Scatter {
+                        fn visit_expr_assign(&mut self, a: &'ast syn::ExprAssign) {
+                            if matches!(&*a.left, syn::Expr::Index(_)) { self.0 = true; }
+                            syn::visit::visit_expr_assign(self, a);
+                        }
+                        fn visit_expr_method_call(&mut self, m: &'ast syn::ExprMethodCall) {
+                            if m.method == "set" { self.0 = true; }
+                            syn::visit::visit_expr_method_call(self, m);
+                        }
+                    }
+                    let mut sc = Scatter(false);
+                    syn::visit::Visit::visit_block(&mut sc, &f.body);
+                    if sc.0 { return None; }
                     let syn::Expr::MethodCall(it) = &*z.receiver else { return None };
                     if it.method != "iter" || !it.args.is_empty() { return None; }
                     let y = &it.receiver;
